@@ -36,7 +36,7 @@ structure CngIn where
 /-- `silk_CNG_Reset` (CNG.c:62-77). -/
 def cngReset (order : Nat) (c : Cng) : Cng :=
   let step := div32 32767 ((order : Int) + 1)
-  { c with smthNLSF := ((List.range order).map fun i => wrap16 (((i : Int) + 1) * step)) ++ c.smthNLSF.drop order,
+  { c with smthNLSF := ((List.range order).map fun (i : Nat) => wrap16 (((i : Int) + 1) * step)) ++ c.smthNLSF.drop order,
            smthGain := 0, randSeed := 3176576 }
 
 /-- CNG.c:93-98. -/
